@@ -177,13 +177,13 @@ func randBOp(r *rand.Rand, mode int) BOp {
 		}
 		return BOp{Op: "W", P: p}
 	case k < 10:
-		c := []int{'a', '\n', ' ', '?', 0xE2, 0x80, 0xB9, 0xBA, 0xFF, 0xC3}[r.Intn(10)]
+		c := []int{'a', '\n', ' ', '?', 0xE2, 0x80, 0xB9, 0xBA, 0xFF, 0xC3, 0xB8, 0xBB}[r.Intn(12)]
 		if mode == 2 {
 			c = []int{'a', '\n', ' '}[r.Intn(3)]
 		}
 		return BOp{Op: "WB", N: c}
 	case k < 12:
-		c := []int{'a', '\n', 0x2039, 0x203A, 0xD7, 0x1F600, 0xD800, -1, 0x110000, 0xFFFD, 0xE9}[r.Intn(11)]
+		c := []int{'a', '\n', 0x2039, 0x203A, 0xD7, 0x1F600, 0xD800, -1, 0x110000, 0xFFFD, 0xE9, 0x2038, 0x203B}[r.Intn(13)]
 		if mode == 2 {
 			c = []int{'a', '\n', 0xE9}[r.Intn(3)]
 		}
